@@ -71,6 +71,7 @@ int *arrLib(int *len);
 double *arrNewAlloc(int n, int *len);
 int *arrNewPat(int n, int *len);
 int arrSum(const int *arr, int n);
+void arrFillOut(int n, double *out);
 void charGrow(char *s);
 int charArrLen(char **names, int n);
 Item &refItem();
